@@ -46,14 +46,14 @@ theorem rdU32le_isSome (s : Bytes) (h : 4 ≤ s.length) : ∃ v r, rdU32le s = s
 /-! ### `pad128` facts (bit-vector) -/
 
 theorem pad128_ge (l : UInt64) (h : l < 0x80000000) : ¬ pad128 l < (pad128 l - l).toUInt32.toUInt64 + l := by
-  simp only [pad128]; bv_decide
+  simp only [pad128]; bv_decide (timeout := 300)
 
 theorem pad128_sub (l : UInt64) (h : l < 0x80000000) :
     pad128 l - (pad128 l - l).toUInt32.toUInt64 - l = 0 := by
-  simp only [pad128]; bv_decide
+  simp only [pad128]; bv_decide (timeout := 300)
 
 theorem ofNat_toUInt32_toUInt64 (l : UInt64) (h : l < 0x80000000) : l.toUInt32.toUInt64 = l := by
-  bv_decide
+  bv_decide (timeout := 300)
 
 @[simp] theorem drop4_putU32le (v : UInt32) (r : Bytes) : (putU32le v ++ r).drop 4 = r := by
   simp [putU32le]
